@@ -150,6 +150,7 @@ class Repo:
             raise AnalysisError(f"only {len(self.modules)} modules found under {self.pkg}")
         for mi in self.modules.values():
             self._desugar_getattr(mi)
+            self._desugar_property_objects(mi)
         for mi in self.modules.values():
             self._collect_module(mi)
         self._check_dynamic()
@@ -231,6 +232,41 @@ class Repo:
 
     def _visit_expr_for_lambdas(self, mi, expr, qual, cls, parent):
         self._visit(mi, _Body([ast.Expr(value=expr)]), qual, cls, parent)
+
+    def _desugar_property_objects(self, mi):
+        """A read-only property written as a class-level object, `name = property(attrgetter("_f"), ...)` or
+        `name = property(lambda self: self._f, ...)`, is rewritten at load time into the decorated method
+        `@property def name(self): return self._f` that every analysis knows."""
+        for cls in [n for n in ast.walk(mi.tree) if isinstance(n, ast.ClassDef)]:
+            for i, st in enumerate(cls.body):
+                if not (isinstance(st, ast.Assign) and len(st.targets) == 1 and isinstance(st.targets[0], ast.Name) and
+                        isinstance(st.value, ast.Call) and isinstance(st.value.func, ast.Name) and st.value.func.id == "property"
+                        and len(st.value.args) == 1 and all(k.arg == "doc" for k in st.value.keywords)):
+                    continue
+                g = st.value.args[0]
+                body = None
+                if isinstance(g, ast.Call) and ast.unparse(g.func) in ("attrgetter", "operator.attrgetter") and len(g.args) == 1 \
+                        and not g.keywords and isinstance(g.args[0], ast.Constant) and isinstance(g.args[0].value, str) \
+                        and g.args[0].value.isidentifier():
+                    body = ast.Attribute(value=ast.Name(id="self", ctx=ast.Load()), attr=g.args[0].value, ctx=ast.Load())
+                elif isinstance(g, ast.Lambda) and len(g.args.args) == 1 and not g.args.defaults and not g.args.vararg and not g.args.kwarg:
+                    class _Self(ast.NodeTransformer):
+                        def visit_Name(self, n):
+                            return ast.copy_location(ast.Name(id="self", ctx=n.ctx), n) if n.id == g.args.args[0].arg else n
+                    body = _Self().visit(g.body)
+                if body is None:
+                    continue
+                fn = ast.FunctionDef(name=st.targets[0].id,
+                                     args=ast.arguments(posonlyargs=[], args=[ast.arg(arg="self")], kwonlyargs=[], kw_defaults=[], defaults=[]),
+                                     body=[ast.Return(value=body)], decorator_list=[ast.Name(id="property", ctx=ast.Load())],
+                                     returns=None, type_comment=None, type_params=[])
+                ast.copy_location(fn, st)
+                for n in ast.walk(fn):
+                    if not hasattr(n, "lineno"):
+                        ast.copy_location(n, st)
+                ast.fix_missing_locations(fn)
+                fn.end_lineno = getattr(st, "end_lineno", st.lineno)
+                cls.body[i] = fn
 
     def _desugar_getattr(self, mi):
         """`getattr(E, p)` where p is a parameter of the enclosing function and *every* call of that function in
